@@ -53,7 +53,6 @@ def gen_addr(rnd, utf8):
 
 
 def smtp_hop(rnd, cfg):
-    a, b = gsocket.socketpair()
     got = []
     edge_rcpt = []
 
@@ -85,21 +84,28 @@ def smtp_hop(rnd, cfg):
         got.append({'t': 'got', 'sender': list(env.sender.encode('utf-8')), 'rcpts': [list(r.encode('utf-8')) for r in env.recipients],
                     'content': list(hdr + body)})
         return [(env, 'id')]
-    handlers = SmtpSession(('127.0.0.1', 1), V, handoff)
-    server = Server(b, handlers, ('127.0.0.1', 1), auth=[b'PLAIN'] if cfg['auth'] else False, command_timeout=5.0)
-    for ext in ('PIPELINING', '8BITMIME', 'SMTPUTF8', 'ENHANCEDSTATUSCODES'):
-        if not cfg['ext'].get(ext, True):
-            server.extensions.drop(ext)
-    if cfg['size']:
-        server.extensions.add('SIZE', cfg['size'])
-    advertised = sorted(server.extensions.extensions.keys()) if not cfg['helo_fallback'] else []
+    advertised = []
+    servers = []
 
-    def run():
-        try:
-            server.handle()
-        except BaseException:  # noqa
-            pass
-    g = gevent.spawn(run)
+    def connect(addr):
+        # every connection the relay opens gets its own edge session
+        a, b = gsocket.socketpair()
+        handlers = SmtpSession(('127.0.0.1', 1), V, handoff)
+        server = Server(b, handlers, ('127.0.0.1', 1), auth=[b'PLAIN'] if cfg['auth'] else False, command_timeout=5.0)
+        for ext in ('PIPELINING', '8BITMIME', 'SMTPUTF8', 'ENHANCEDSTATUSCODES'):
+            if not cfg['ext'].get(ext, True):
+                server.extensions.drop(ext)
+        if cfg['size']:
+            server.extensions.add('SIZE', cfg['size'])
+        advertised[:] = sorted(server.extensions.extensions.keys()) if not cfg['helo_fallback'] else []
+
+        def run():
+            try:
+                server.handle()
+            except BaseException:  # noqa
+                pass
+        servers.append(gevent.spawn(run))
+        return a
     clients = []
 
     class Rec(StaticSmtpRelay._default_class):
@@ -107,8 +113,25 @@ def smtp_hop(rnd, cfg):
             r = StaticSmtpRelay._default_class._ehlo(self)
             clients.append(sorted(self.client.extensions.extensions.keys()))
             return r
-    relay = StaticSmtpRelay('127.0.0.1', 25, socket_creator=lambda addr: a, client_class=Rec, ehlo_as='relay.example',
-                            connect_timeout=5, command_timeout=5, data_timeout=5)
+    relay = StaticSmtpRelay('127.0.0.1', 25, socket_creator=connect, client_class=Rec, ehlo_as='relay.example',
+                            connect_timeout=5, command_timeout=5, data_timeout=5, idle_timeout=5 if cfg.get('reuse') else None)
+    outs = []
+    for msgno in range(cfg.get('nmsg', 1)):
+        del got[:]
+        del edge_rcpt[:]
+        outs.append(_one_message(rnd, cfg, relay, got, edge_rcpt, clients, advertised, msgno))
+    gevent.sleep(0.01)
+    for g in servers:
+        g.kill()
+    try:
+        for c in list(relay.pool):
+            c.kill(block=False)
+    except Exception:  # noqa
+        pass
+    return outs
+
+
+def _one_message(rnd, cfg, relay, got, edge_rcpt, clients, advertised, msgno):
     utf8 = cfg['ext'].get('SMTPUTF8', True) and not cfg['helo_fallback']
     sender = '' if rnd.random() < 0.15 else gen_addr(rnd, utf8)
     rcpts = [gen_addr(rnd, utf8) for _ in range(rnd.randint(1, 5))]
@@ -121,7 +144,7 @@ def smtp_hop(rnd, cfg):
             rcpts.insert(rnd.randrange(len(rcpts)), rcpts[0])
     hdr = rnd.choice(HEADERS)
     body = rnd.choice(BODIES)
-    if cfg.get('big'):
+    if cfg.get('big') and msgno == 0:
         rb = random.Random(cfg['big'])
         body = b''.join(rb.choice([b'mid.line.dots.', b'x' * rb.randint(1, 70), b'.\r\n'[:rb.randint(1, 3)], b'\r\n', b'a.b', b'..']) for _ in range(cfg['big']))
     if not (cfg['ext'].get('8BITMIME', True) and not cfg['helo_fallback']):
@@ -153,8 +176,7 @@ def smtp_hop(rnd, cfg):
         res.update(relay='T', relay_code=int(e.reply.code))
     except BaseException as e:  # noqa
         res['exc'] = type(e).__name__
-    gevent.sleep(0.01)
-    g.kill()
+    res['edge_per'] = list(edge_rcpt)
     if cfg.get('mail_reject'):
         res['edge_code'] = cfg['mail_reject']  # the sender was refused: that is the outcome of the whole message, whatever the
         res['edge_per'] = []                   # edge says to the RCPT / DATA commands PIPELINING had already sent
@@ -166,6 +188,77 @@ def smtp_hop(rnd, cfg):
         ev.append({'t': 'ext', 'server': [x for x in advertised], 'client': clients[-1]})
     ev.append(res)
     return sent, ev
+
+
+def http_hop(rnd, cfg):
+    """the real HttpRelay into the real WsgiEdge (gevent WSGI server on loopback); cfg: reject, reuse, nmsg.
+    Returns one (sent, ev) per message; with reuse the messages travel over one kept-alive connection."""
+    from slimta.edge.wsgi import WsgiEdge
+    from slimta.queue import QueueError
+    from slimta.relay.http import HttpRelay
+    from slimta.smtp.reply import Reply
+    got = []
+    verdicts = []
+
+    def handoff(env):
+        hdr, body = env.flatten()
+        got.append({'t': 'got', 'sender': list(env.sender.encode('utf-8')), 'rcpts': [list(r.encode('utf-8')) for r in env.recipients],
+                    'content': list(hdr + body)})
+        code = verdicts.pop(0) if verdicts else 0
+        if code:
+            e = QueueError('scripted')
+            e.reply = Reply(str(code), ('4.0.0' if code < 500 else '5.0.0') + ' scripted')
+            return [(env, e)]
+        return [(env, 'id')]
+    edge = WsgiEdge(None, 'edge.example', uri_pattern=r'^/deliver$')
+    edge.handoff = handoff
+    server = edge.build_server(('127.0.0.1', 0))
+    class _Null(object):
+        def write(self, *a):
+            pass
+
+        def flush(self):
+            pass
+    server.log = _Null()
+    server.start()
+    relay = HttpRelay('http://127.0.0.1:%d/deliver' % server.server_port, ehlo_as='relay.example', timeout=10,
+                      idle_timeout=5 if cfg['reuse'] else None)
+    outs = []
+    try:
+        for k in range(cfg['nmsg']):
+            sender = '' if rnd.random() < 0.15 else gen_addr(rnd, True)
+            rcpts = [gen_addr(rnd, True) for _ in range(rnd.randint(1, 4))]
+            hdr, body = rnd.choice(HEADERS), rnd.choice(BODIES)
+            if cfg.get('big') and k == 0:
+                rb = random.Random(cfg['big'])
+                body = b''.join(rb.choice([b'mid.line.dots.', b'x' * rb.randint(1, 70), b'.\r\n'[:rb.randint(1, 3)], b'\r\n', b'a.b', b'..']) for _ in range(cfg['big']))
+            env = Envelope(sender, rcpts)
+            env.parse(hdr + b'\r\n' + body)
+            h0, b0 = env.flatten()
+            reject = rnd.choice(cfg['reject'])
+            verdicts[:] = [reject]
+            del got[:]
+            sent = {'sender': list(sender.encode('utf-8')), 'rcpts': [list(r.encode('utf-8')) for r in rcpts], 'content': list(h0 + b0)}
+            res = {'t': 'result', 'edge_code': reject or 250, 'relay': 'other', 'relay_code': 0, 'per': [], 'edge_per': []}
+            try:
+                with gevent.Timeout(15):
+                    r = relay.attempt(env, 0)
+                res.update(relay='ok', relay_code=int(r.code) if r is not None else 250)
+            except PermanentRelayError as e:
+                res.update(relay='P', relay_code=int(e.reply.code))
+            except TransientRelayError as e:
+                res.update(relay='T', relay_code=int(e.reply.code))
+            except BaseException as e:  # noqa
+                res['exc'] = type(e).__name__
+            outs.append((sent, list(got) + [res], reject))
+    finally:
+        try:
+            for c in list(relay.pool):
+                c.kill(block=False)
+        except Exception:  # noqa
+            pass
+        server.stop(timeout=0.1)
+    return outs
 
 
 def main():
@@ -187,12 +280,23 @@ def main():
         if cfg['mail_reject']:
             cfg['reject'] = 0
             cfg['rcpt_reject'] = False
-        sent, ev = smtp_hop(rnd, cfg)
-        stats['executions'] += 1
-        cls = 'smtp' + ('-helo' if cfg['helo_fallback'] else '') + ('-reject' if cfg['reject'] else '') + ('-rcptreject' if cfg['rcpt_reject'] else '') + ('-mailreject' if cfg['mail_reject'] else '') + ('-big' if cfg['big'] else '')
-        f.write(json.dumps({'id': shard + n * nshards, 'cls': cls, 'cfg': {'kind': 'smtp', 'reject': cfg['reject']}, 'sent': sent, 'ev': ev},
-                           separators=(',', ':')) + '\n')
-        n += 1
+        cfg['reuse'] = rnd.random() < 0.35 and cfg['mail_reject'] != 421     # after a 421 the edge closes: nothing to reuse
+        cfg['nmsg'] = rnd.randint(2, 3) if cfg['reuse'] else 1
+        for k, (sent, ev) in enumerate(smtp_hop(rnd, cfg)):
+            stats['executions'] += 1
+            cls = 'smtp' + ('-helo' if cfg['helo_fallback'] else '') + ('-reject' if cfg['reject'] else '') + ('-rcptreject' if cfg['rcpt_reject'] else '') + ('-mailreject' if cfg['mail_reject'] else '') + ('-big' if cfg['big'] else '') + ('-reuse%d' % k if cfg['reuse'] else '')
+            f.write(json.dumps({'id': shard + n * nshards, 'cls': cls, 'cfg': {'kind': 'smtp', 'reject': cfg['reject']}, 'sent': sent, 'ev': ev},
+                               separators=(',', ':')) + '\n')
+            n += 1
+    for it in range(10 if quick else 250):
+        cfg = {'reuse': rnd.random() < 0.6, 'nmsg': rnd.randint(1, 3), 'reject': rnd.choice([[0], [0], [0, 451, 554], [451], [554]]),
+               'big': rnd.choice([0, 0, 300, 2500])}
+        for k, (sent, ev, reject) in enumerate(http_hop(rnd, cfg)):
+            stats['executions'] += 1
+            cls = 'http' + ('-reuse%d' % k if cfg['reuse'] else '') + ('-reject' if reject else '') + ('-big' if cfg['big'] and k == 0 else '')
+            f.write(json.dumps({'id': shard + n * nshards, 'cls': cls, 'cfg': {'kind': 'http', 'reject': reject}, 'sent': sent, 'ev': ev},
+                               separators=(',', ':')) + '\n')
+            n += 1
     f.write(json.dumps({'summary': stats}) + '\n')
     f.close()
 
